@@ -27,6 +27,27 @@ func properties() map[string]*PropertyDef {
 			Explanation: "loop-free functions: each postcondition 'result <=> address lies in one of the documented networks' is a quantifier-free query over 4 or 16 byte variables, i.e. all 2^32 + 2^128 addresses and the invalid Addr",
 		},
 	}
+	ps = append(ps, &PropertyDef{
+		ID:       "C15",
+		Patterns: []string{"./ioutil"},
+		Funcs: []string{
+			"ioutil.LimitReader", "ioutil.(*limitedReader).Read", "ioutil.NewTruncatedWriter", "ioutil.(*TruncatedWriter).Write",
+		},
+		NeedsClauses: map[string][]string{
+			"ioutil.(*limitedReader).Read":   {"inv", "exhausted", "one_clamped_request", "passthrough", "accounting", "bad_length_rejected"},
+			"ioutil.(*TruncatedWriter).Write": {"reports_all", "inv", "accounting", "full_forwards_nothing", "forwards_prefix"},
+			"ioutil.LimitReader":             {"wraps"},
+		},
+		Assumptions: []string{
+			"io.Reader.Read / io.Writer.Write of the wrapped object are arbitrary except n <= len(p) (negative n allowed; errors arbitrary); they may write only the window they were given",
+			"the history-level statement (total delivered <= limit; forwarded bytes = first min(total, limit) bytes) follows by induction over the call sequence from the object invariant n <= limit / offset <= limit and the per-call two-state postconditions 'accounting', 'one_clamped_request', 'forwards_prefix'; the induction step is what is proved, the telescoping sum is not mechanised",
+			"single-goroutine use, as documented",
+		},
+		Explanation: "object invariant plus per-call two-state postconditions over a ghost log of the calls made to the wrapped reader/writer; exact uint/uint64 arithmetic",
+		LevelText:   "proof: for every state satisfying the object invariant, every buffer and every behaviour of the wrapped reader/writer allowed by the assumed interface contract, one call re-establishes the invariant, requests/forwards exactly the clamped window once, passes results through and accounts for the bytes; induction over call sequences gives the property",
+		LevelNote:   "assumed: io.Reader/io.Writer interface contracts (specs/io.spec), fmt.Errorf returns non-nil; trusted: go/ssa lowering, govc encoding, solvers",
+		Technique:   "contract-based deductive verification (govc): object invariant + two-state postconditions with a ghost call log, WP over go/ssa, z3/cvc5",
+	})
 	out := map[string]*PropertyDef{}
 	for _, p := range ps {
 		out[p.ID] = p
